@@ -40,6 +40,10 @@ def cells(tier):
         for seq in ([1], [2], [5, 2]):
             sc = scen(pool(old), [[A("A", 3)], [FLUSH] + [["set_size", v] for v in seq] + [A("B", 2)]], outcomes=["ret"])
             out.append(cell(f"{old}->{seq} A3|flush,resize,B2", sc, MON))
+    # made unbounded and bounded again while spawners wait for room (both assignments may fall into one loop iteration)
+    for old, new in [(1, 2), (1, 1), (2, 1)]:
+        sc = scen(pool(old), [[A("A", old + 3)], [["set_size", "inf"], ["set_size", new]]], outcomes=["ret"])
+        out.append(cell(f"{old}->inf->{new} A{old + 3} (spawners waiting)", sc, MON + ["C02"]))
     sc = scen(pool(1, "SimpleTaskPool"), [[S("S", 3)], [["set_size", 2]], [["set_size", 0]]], outcomes=["ret"])
     out.append(cell("simple 1->2,->0 S3", sc, MON))
     if not q:
